@@ -22,8 +22,17 @@ from kmip.core import enums
 def parse_policy(policy):
     result = {}
 
+    if not isinstance(policy, dict):
+        raise ValueError("A policy section must be a JSON object.")
+
     for object_type, operation_policies in six.iteritems(policy):
         processed_operation_policies = {}
+
+        if not isinstance(operation_policies, dict):
+            raise ValueError(
+                "The operation policies of '{0}' must be a JSON "
+                "object.".format(object_type)
+            )
 
         for operation, permission in six.iteritems(operation_policies):
             try:
